@@ -151,6 +151,8 @@ def gen(c):
     for name, x, y in vals:
         if (x, y) != C1:
             add("c1", ct((x, y)), dict(kind="oracle", cls="c1:" + name, expect=False))
+    z32 = bytes(32); mm = b"forged without any key"
+    add("c1", seq(dint(0), dint(0), doctets(sm3(z32 + mm + z32)), doctets(bytes(u ^ v for u, v in zip(mm, kdf(z32 + z32, len(mm)))))), dict(kind="oracle", cls="c1:zero_zero_consistent", expect=False))
     # SM9 points
     q = sm9ref.p
     for i in range(3):
